@@ -2241,6 +2241,9 @@ class Task:
         for ln_, lv_ in st.locals.items():
             if isinstance(lv_, V):
                 env_site.setdefault("L_" + ln_, lv_)      # the caller's locals, for site assertions only
+        for ln_ in self.fn_locals:
+            if ln_ not in st.locals:
+                env_site.setdefault("L_" + ln_, VUnbound(ln_))      # a caller local that is not bound at this call site: equal to nothing
         for k, t in list(c.site_asserts.items()) + list(c.site_asserts_for.get(self.receiver, {}).items()) + list(c.site_asserts_in.get(self.contract.name, {}).items()):
             self.oblige(st, f"{k} @ {where}", self.spec_bool(st, t, env_site, self.old, self_cls), "site", getattr(node, "lineno", None))
         for ox in c.assert_inv_of:
@@ -2522,6 +2525,12 @@ class VDictOf(PyVal):
         self.obj = obj
 
 
+class VUnbound(PyVal):
+    """in a site assertion: a local of the calling function that is not bound at this call site"""
+    def __init__(self, name):
+        self.name = name
+
+
 class VPyList(PyVal):
     """a list literal with python-level elements (bound methods, tuples of them)"""
     def __init__(self, items):
@@ -2664,6 +2673,8 @@ class SpecEval:
 
     def s_Attribute(self, n):
         o = self.ev(n.value)
+        if isinstance(o, VUnbound):
+            return o
         if isinstance(o, V) and isinstance(o.sort, RefSort):
             heap = self.old[0] if (self.in_old and self.old) else None
             return self.t.read_field(self.st, o, n.attr, heap)
@@ -2691,7 +2702,9 @@ class SpecEval:
         vals = [self.ev(n.left)] + [self.ev(c) for c in n.comparators]
         cs = []
         for op, a, b in zip(n.ops, vals, vals[1:]):
-            if isinstance(op, (ast.In, ast.NotIn)):
+            if isinstance(a, VUnbound) or isinstance(b, VUnbound):
+                cs.append(z3.BoolVal(isinstance(op, (ast.NotEq, ast.IsNot, ast.NotIn))))     # nothing equals a local that does not exist here
+            elif isinstance(op, (ast.In, ast.NotIn)):
                 c = self.t.contains(self.st, a, b, n)
                 cs.append(z3.Not(c) if isinstance(op, ast.NotIn) else c)
             else:
